@@ -662,6 +662,25 @@ func (gs *groupScen) checkFinalCommit(m *gmember, sr *sessRec) {
 		gs.r.probe("final-commit-due-without-a-live-coordinator-connection")
 		return
 	}
+	if gs.c.Config.OffsetsRetryMax == 0 {
+		// With no retry the single final attempt goes to the Broker object the session's offset manager cached when
+		// the session began; connection trouble at any time since (the client may have replaced that object in its
+		// registry) makes the attempt fail inside the client. The obligation then needs a trouble-free session.
+		since := int64(0)
+		if sr.n > 0 && sr.n-1 < len(m.sessions) {
+			since = m.sessions[sr.n-1].returnUs
+		}
+		for _, c := range conns {
+			c.mu.Lock()
+			trouble := c.br != nil && c.br.id == gs.gm.coordinator &&
+				((c.clientCloseUs >= since && c.clientCloseUs > 0 && c.clientCloseUs <= sr.returnUs) || (c.serverCloseUs >= since && c.serverCloseUs > 0 && c.serverCloseUs <= sr.returnUs))
+			c.mu.Unlock()
+			if trouble {
+				gs.r.probe("final-commit-due-after-connection-trouble-with-no-retry")
+				return
+			}
+		}
+	}
 	latest := map[string]*commitRec{}
 	for _, cr := range gs.gm.commits[:sr.snapCommits] {
 		if cr.member != sr.memberID {
